@@ -22,6 +22,7 @@ def run(ctx):
     ctx.do(CA.rule_c2, "ProjectiveObject", scope=ctx.scope(ENTRIES))
     ctx.do(SI.rule_mean1, [SI.HYP], scope=ctx.scope(ENTRIES))
     ctx.do(SH.rule_sh5, only={"Subspace._data_with_dual", "Subspace.spacelike_complement", "Subspace.reflection_across", "Isometry.fixed_point_pair", "Isometry.fixed_point", "Isometry.axis", "Hyperplane.from_reflection", "Geodesic.from_reflection"})
+    ctx.do(SH.rule_hom1, parts=("hyp",), only={"Subspace.spacelike_complement", "Subspace.reflection_across", "Hyperplane.reflection_across", "Hyperplane.from_reflection", "Geodesic.from_reflection", "Isometry.fixed_point_pair", "Isometry.fixed_point", "Isometry.axis"})
     ctx.do(u1, ENTRIES, min_functions=15)
     ctx.r.assume("involutivity, fixed sets and the ordering of fixed points "
                  "are numerical and not decided")
